@@ -194,6 +194,14 @@ pub fn tx_alphabet(n: &Node, cfg: &AlphaCfg) -> Vec<(String, Transaction, bool)>
                 // unbalanced in an ordinary denomination while also issuing a new token (the exemption of the new token must not spread)
                 acc.push((format!("unbal+1+newtoken({})", short(&c.0)), tx_t(TxKind::Normal, ins.clone(), with(vec![out_t(v + 1, *d), out_t(7, Denom::NewCustom)]), 0, vec![]), false));
                 acc.push((format!("nocov({})", short(&c.0)), mktx(TxKind::Normal, ins.clone(), with(vec![out_t(v, *d)]), 0, vec![], vec![]), false));
+                if *d != Denom::Mel && ins.len() == 2 {
+                    // the coin's denomination named by no output at all: its amount disappears (known finding AK: accepted), and the
+                    // same with one unit less named explicitly (refused as unbalanced)
+                    acc.push((format!("omit-denomination({})", short(&c.0)), tx_t(TxKind::Normal, ins.clone(), with(vec![]), 0, vec![]), false));
+                    if v > 1 {
+                        acc.push((format!("unbal-1({})", short(&c.0)), tx_t(TxKind::Normal, ins.clone(), with(vec![out_t(v - 1, *d)]), 0, vec![]), false));
+                    }
+                }
                 let mut dbl = ins.clone();
                 dbl.push(c.0);
                 acc.push((format!("dbl({})", short(&c.0)), tx_t(TxKind::Normal, dbl, with(vec![out_t(v, *d), out_t(v, *d)]), 0, vec![]), false));
